@@ -812,6 +812,21 @@ def _eliminate_aliases(fn):
                 if lo < hi and not any(n.id == target for n in order[lo:hi]):
                     ren[tagged] = target
                     st.value = ast.copy_location(ast.Name(id=target, ctx=ast.Load()), st.value)  # becomes `x = x`, removed below
+    # x = y__tag at the top level of the function, every mention of y__tag before it and no mention of x before it (whatever the
+    # number of bindings): from there on only x is used, so y__tag was x all along
+    for k, st in enumerate(fn.body):
+        if isinstance(st, ast.Assign) and len(st.targets) == 1 and isinstance(st.targets[0], ast.Name) and isinstance(st.value, ast.Name) and "__" in st.value.id \
+                and st.value.id not in ren and st.targets[0].id not in ren.values():
+            tagged, target = st.value.id, st.targets[0].id
+            if tagged == target or target in {a.arg for a in ast.walk(fn.args) if isinstance(a, ast.arg)}:
+                continue
+            before, after = fn.body[:k], fn.body[k + 1:]
+            if any(mentions(x, tagged) for x in after) or any(mentions(x, target) for x in before):
+                continue
+            if any(isinstance(n, FDEFS + (ast.Lambda, ast.ClassDef)) and (mentions(n, tagged) or mentions(n, target)) for x in fn.body for n in ast.walk(x)):
+                continue
+            ren[tagged] = target
+            st.value = ast.copy_location(ast.Name(id=target, ctx=ast.Load()), st.value)
     if ren:
         for n in _walk_own(fn):
             if isinstance(n, ast.Name) and n.id in ren:
@@ -1432,6 +1447,31 @@ def _fold_private_records(fn, records):
     for n in ast.walk(fn):
         for c in ast.iter_child_nodes(n):
             parent[id(c)] = n
+    # t1, t2 = _Rec(a=E1, b=E2)   ->   (t1, t2) = (E1, E2)   (split into single assignments by the next pass when the Ei do not read the ti)
+    for n in _walk_own(fn):
+        if isinstance(n, ast.Assign) and len(n.targets) == 1 and isinstance(n.targets[0], ast.Tuple) and isinstance(n.value, ast.Call) and isinstance(n.value.func, ast.Name) \
+                and n.value.func.id in records and len(n.targets[0].elts) == len(records[n.value.func.id]):
+            fields = records[n.value.func.id]
+            call = n.value
+            if any(isinstance(a, ast.Starred) for a in call.args) or any(k.arg is None for k in call.keywords) or len(call.args) > len(fields):
+                continue
+            bound = {f: a for (f, _d), a in zip(fields, call.args)}
+            ok_ = True
+            for k in call.keywords:
+                if k.arg in bound or k.arg not in [f for f, _ in fields]:
+                    ok_ = False
+                bound[k.arg] = k.value
+            for f, d in fields:
+                if f not in bound:
+                    if d is None:
+                        ok_ = False
+                    else:
+                        bound[f] = d
+            # keyword arguments written in another order than the fields are evaluated in their written order: only plain values may move
+            written = [k.arg for k in call.keywords]
+            in_field_order = written == [f for f, _ in fields if f in written]
+            if ok_ and (in_field_order or all(not any(isinstance(x, ast.Call) for x in ast.walk(v)) for v in bound.values())):
+                n.value = ast.copy_location(ast.Tuple(elts=[bound[f] for f, _ in fields], ctx=ast.Load()), call)
     cands = {}
     for n in _walk_own(fn):
         if isinstance(n, ast.Assign) and len(n.targets) == 1 and isinstance(n.targets[0], ast.Name) and isinstance(n.value, ast.Call) and isinstance(n.value.func, ast.Name) \
